@@ -224,7 +224,7 @@ def miri_stage(ctx):
     cases = [c for c in all_cases(4) if c["extra"] == 0 or c["n"] <= 1]
     lines = "\n".join(harness_line(c) for c in cases) + "\n"
     env = {"RUSTFLAGS": "--cfg %s" % core.GUARD, "CARGO_TARGET_DIR": os.path.join(core.BUILD, "target-miri" if core.SHADOW is None else "target-miri-" + core.SHADOW),
-           "CARGO_NET_OFFLINE": "true", "MIRIFLAGS": os.environ.get("MIRIFLAGS", "")}
+           "CARGO_NET_OFFLINE": "true", "MIRIFLAGS": (os.environ.get("MIRIFLAGS", "") + " -Zmiri-disable-isolation").strip()}
     t0 = time.time()
     rc, out, err = core.sh(["cargo", "+nightly", "miri", "run", "--offline", "--bin", "mem", "--", "run"],
                            cwd=core.HARNESS, env=env, input=lines, timeout=900)
@@ -278,9 +278,11 @@ def run(ctx):
     ctx.cov["exhaustive_bound"] = {"max_length": nmax, "positions": "all", "modes": ["Err", "Panic", "none"], "pairs": VEC_VARIANTS}
     for c, o, ev, whyc in results:
         ctx.count("%s/%s" % (c["kind"], c["variant"]), case_key(c), nontrivial=c["n"] >= 1)
-    for k in (0, len(results) // 3, len(results) // 2, (2 * len(results)) // 3, len(results) - 1):
-        c, o, ev, _ = results[k]
-        ctx.sample({"case": harness_line(c), "coq_case": sx.to_coq(coq_case(c)), "real_log": o})
+    wanted = [("Vec", "Same", 5, 0, 3, "Panic"), ("Vec", "Same4", 4, 3, 0, "Err"), ("Vec", "Same", 3, 0, None, None),
+              ("Vec", "DiffAlign", 4, 0, 2, "Err"), ("Vec", "Zst", 3, 0, 1, "Panic"), ("Box", "Same", 1, 0, 0, "Panic")]
+    for c, o, ev, _ in results:
+        if (c["kind"], c["variant"], c["n"], c["extra"], c["pos"], c["mode"]) in wanted:
+            ctx.sample({"case": harness_line(c), "coq_case": sx.to_coq(coq_case(c)), "real_log": o})
 
     reported = 0
     # 1. runs that did not complete (abort / time-out / harness panic): the process died inside the real code
